@@ -393,6 +393,7 @@ fn c18(ctx: &mut Ctx, w: &World, st: &St, t: &PTx, _params: &Params, fin: &Finis
         match w.certs[*k].script {
             Some(2) => needs.push((w.plutus[1].hash().to_bytes(), false, format!("cert {}", k))),
             Some(1) => needs.push((w.native[1].hash().to_bytes(), false, format!("cert {}", k))),
+            Some(0) if *k == 24 => needs.push((w.native[0].hash().to_bytes(), true, format!("cert {}", k))),
             Some(_) => needs.push((w.native[0].hash().to_bytes(), false, format!("cert {}", k))),
             None => {}
         }
@@ -404,6 +405,7 @@ fn c18(ctx: &mut Ctx, w: &World, st: &St, t: &PTx, _params: &Params, fin: &Finis
             5 => needs.push((w.plutus[0].hash().to_bytes(), false, "withdrawal 5".into())),
             6 => needs.push((w.native[1].hash().to_bytes(), false, "withdrawal 6".into())),
             7 => needs.push((w.plutus[2].hash().to_bytes(), true, "withdrawal 7".into())),
+            8 => needs.push((w.native[0].hash().to_bytes(), true, "withdrawal 8".into())),
             _ => {}
         }
     }
@@ -413,6 +415,7 @@ fn c18(ctx: &mut Ctx, w: &World, st: &St, t: &PTx, _params: &Params, fin: &Finis
             4 => needs.push((w.plutus[2].hash().to_bytes(), false, "vote 4".into())),
             5 | 6 => needs.push((w.plutus[0].hash().to_bytes(), false, format!("vote {}", i))),
             7 => needs.push((w.plutus[2].hash().to_bytes(), true, "vote 7".into())),
+            8 => needs.push((w.native[0].hash().to_bytes(), true, "vote 8".into())),
             _ => {}
         }
     }
@@ -478,7 +481,7 @@ fn c18(ctx: &mut Ctx, w: &World, st: &St, t: &PTx, _params: &Params, fin: &Finis
         + st.m.mint.keys().map(|k| k.0).collect::<BTreeSet<_>>().iter().filter(|p| **p == 1 || **p == 3).count()
         + st.m.certs.iter().filter(|k| w.certs[**k].script == Some(2)).count()
         + st.m.wds.iter().filter(|i| **i == 3 || **i == 5 || **i == 7).count()
-        + st.m.votes.iter().filter(|i| **i >= 4).count()
+        + st.m.votes.iter().filter(|i| **i >= 4 && **i != 8).count()
         + st.m.proposals.iter().filter(|i| **i >= 3).count();
     if t.redeemers.len() != plutus_uses {
         ctx.violation("C18/redeemer-count".to_string(), format!("{} redeemers for {} Plutus uses ; {}", t.redeemers.len(), plutus_uses, what()));
